@@ -960,7 +960,7 @@ func init() {
 func init() {
 	register(&Rule{
 		ID:    "C10.consumed",
-		Props: []string{"C10", "C03", "C11"},
+		Props: []string{"C10", "C03", "C11", "C09"},
 		Doc:   "rtree.BulkLoad takes ownership of its items slice and permutes it while building the tree (the reviewed exception of C10.write): after the call no caller reads an element of that slice again — not by index, by slicing, by range, by passing it on, or from a closure — because position i no longer holds item i (Polygon.Validate searching with items[i].Box after the load compares ring i against another ring's envelope as soon as there are 5 rings)",
 		Floor: 5,
 		Run: func(c *Ctx) {
